@@ -447,6 +447,8 @@ OWN_SEEDS = [
     "unsigned char a; void main() { csleep(1); a = 1; }",
     "unsigned char a; void main() { csleep(-2); csleep(11); csleep(100); csleep(65536); a = 1; }",
     "unsigned char a; void main() { if (a) { } else { } { } ; ; }",
+    "void main() { X = 1; }\n",
+    "unsigned char elsex, returny; void main() { if (X) Y = 1; elsex = 2; returny = 3; do{ X--; }while(X); }\n",
 ]
 
 
@@ -540,6 +542,11 @@ def c16(tier):
     optsets = [["-O1"], ["-O0"], ["-O1", "-DA=1"], ["-O1", "--insert-code"], ["-O2", "-Wall"]]
     for i, (src, kind) in enumerate(cases):
         hc.append(dict(id=i, src=src, variants=[dict(name="v", args=optsets[i % len(optsets)] if i >= len(seeds) else ["-O1"])]))
+    # the seeds once more with the listing option (with and without a final newline)
+    for s in seeds:
+        for t in (s.rstrip("\n") + "\n", s.rstrip("\n")):
+            cases.append((t, "seed-listing"))
+            hc.append(dict(id=len(hc), src=t, variants=[dict(name="v", args=["-O1", "--insert-code"])]))
     # "every option set": unusual but accepted command lines on a few seeds (the rotation above is left as it is)
     odd = [["-O1", "-D", ""], ["-O1", "-DA(=1"], ["-O1", "-DA+B=2"], ["-O1", "-D", "A B=3"], ["-O1", "-DX"], ["-O1", "-Dmain=foo"], ["-O1", "-D1=2"], ["-O1", "-D", "=5"],
            ["-O3", "-I", "/nonexistent/dir"], ["-O1", "-D[a=1"], ["-O1", "-D\\=1"], ["-O1", "-Dvoid=char"], ["-O0", "-DA=A"], ["-O1", "-DA=B", "-DB=A"]]
